@@ -305,6 +305,80 @@ def option_lattice(ctx, r, thorough):
         ctx.count(("combo", i), common)
 
 
+# ---------------------------------------------------------------- requested name x certificate name
+def same_identity(requested, san):
+    """RFC 9525 / RFC 6125 reference identity match for the forms used here (no
+    wildcards): an IP literal matches only an equal iPAddress SAN, a DNS name only
+    an equal (case-insensitive) dNSName SAN"""
+    import ipaddress
+
+    def ip(x):
+        try:
+            return ipaddress.ip_address(x)
+        except ValueError:
+            return None
+    a, b = ip(requested), ip(san)
+    if a is not None or b is not None:
+        return a is not None and a == b
+    return requested.lower() == san.lower()
+
+
+def name_matrix(ctx, thorough):
+    """requested server name (IPv4 literal, IPv6 literal, DNS name) x CA-signed
+    certificate for (other DNS name, other IP, matching IP, matching DNS name):
+    the client completes iff the certificate is valid for the REQUESTED name"""
+    from aioquic import tls
+    from harness import quicpair as Q, tlsdrive as D
+    ca, ca_key = Q.make_ca()
+    trust = D.pem(ca)
+    requested = ["192.0.2.1", "2001:db8::1", "2001:0db8:0:0:0:0:0:1", "server.example", "SERVER.example"]
+    sans = ["evil.example", "192.0.2.99", "2001:db8::99", "192.0.2.1", "2001:db8::1", "server.example"]
+    leaves = {n: Q.make_leaf(ca, ca_key, [n]) for n in sans}
+    leaves["evil.example+192.0.2.99"] = Q.make_leaf(ca, ca_key, ["evil.example", "192.0.2.99"])
+    n = 0
+    for req in requested:
+        for label, (cert, key) in leaves.items():
+            want = any(same_identity(req, x) for x in label.split("+"))
+            # ---- TLS level
+            c = D.client(server_name=req, cadata=trust)
+            s = D.server(ident=(cert, [], key))
+            p = D.Pair(c, s)
+            ce, se = p.run()
+            done = c.state == tls.State.CLIENT_POST_HANDSHAKE
+            n += 1
+            ctx.count(("name", req, label), want)
+            describe = f"requested server_name={req!r}, CA-signed certificate valid for {label.split('+')}"
+            if done and not want:
+                ctx.witness(f"{describe}: the client completed the handshake although the certificate is not valid for the "
+                            f"requested name", {"server_name": req, "certificate_sans": label.split("+"),
+                                                "certificate_pem": D.pem(cert).decode(), "ca_pem": trust.decode()},
+                            {"oracle": "completes-without-authentication", "level": "tls",
+                             "requested": "ip-literal" if ":" in req or req[0].isdigit() else "dns-name",
+                             "certificate_for": "other-ip" if (":" in label or label[0].isdigit()) else "other-dns"})
+            if want and not done:
+                ctx.witness(f"{describe}: the client refused a certificate that is valid for the requested name: {ce!r}",
+                            {"server_name": req, "certificate_sans": label.split("+")},
+                            {"oracle": "valid-certificate-refused", "requested": req, "san": label})
+    # ---- the same through real QUIC connections (HandshakeCompleted event)
+    seed = 7000
+    picks = [("192.0.2.1", "evil.example"), ("2001:db8::1", "evil.example"), ("192.0.2.1", "192.0.2.1"),
+             ("2001:db8::1", "2001:db8::1"), ("server.example", "server.example"), ("server.example", "192.0.2.1"),
+             ("192.0.2.1", "192.0.2.99")]
+    for req, label in (picks if thorough else picks[:5]):
+        seed += 1
+        cert, key = leaves[label]
+        res = Q.run(seed, {"server_name": req}, identity=(cert, [], key), trust=trust)
+        want = same_identity(req, label)
+        n += 1
+        ctx.count(("name-quic", req, label), want)
+        if want:
+            judge_pair(ctx, res, f"server_name={req!r}, certificate for {label!r}")
+        else:
+            judge_pair(ctx, res, f"server_name={req!r}, certificate for {label!r}",
+                       bad_cert=f"the certificate is valid for {label!r}, not for the requested name {req!r}")
+    ctx.notes["name_matrix"] = n
+
+
 # ---------------------------------------------------------------- byte-flipping man in the middle (message level)
 def exchange(D, tls, c, s, tamper):
     """message-by-message handshake between two real contexts; `tamper(direction,
@@ -436,6 +510,13 @@ def main(tier):
         "client verifies certificates (verify_mode != CERT_NONE) for client_complete_authentic",
         "EnvOK (see C11): attribute-reading tests evaluated on handler-entry values",
     ]
+    # failing-input search used when an obligation / the tie no longer checks: rogue servers that
+    # hold neither a trusted certificate key nor an offered PSK, and the name matrix
+    def search():
+        from harness import tlsrogue
+        tlsrogue.run(ctx, full=True, label="rogue-server-search")
+        name_matrix(ctx, False)
+    ctx.search = search
     if not ok:
         return ctx.finish()
     okb, log, _ = lean.lake_build(["aqdriver"])
@@ -448,13 +529,20 @@ def main(tier):
     bad += vn_corr(ctx, r, 200 if thorough else 30)
     bad += version_lattice(ctx, r, thorough)
     option_lattice(ctx, r, thorough)
+    name_matrix(ctx, thorough)
+    from harness import tlsrogue
+    tlsrogue.run(ctx, full=True)
     byte_flips(ctx, r, thorough)
     ctx.notes["correspondence_mismatches"] = bad
     ctx.cov["rule"] = (
         "negotiate(): random lists incl. None / duplicates; is_version_compatible on a 6x6 grid; Version Negotiation on a real "
         "client with random lists; all ordered version lists over {v1,v2} (+unknown) x original_version on real connection "
         "pairs against finalVersion; all pairs of 5 cipher-suite lists and of 4 ALPN lists; 5 certificate key types each "
-        "good + {untrusted, wrong name, expired, not yet valid, wrong private key}; chain; resumption/0-RTT accepted, ticket "
+        "good + {untrusted, wrong name, expired, not yet valid, wrong private key}; requested name {IPv4 literal, IPv6 literal "
+        "(two spellings), DNS name (two cases)} x CA-signed certificate for {other DNS, other IPv4, other IPv6, matching IPv4, "
+        "matching IPv6, matching DNS, two wrong names} at TLS level + through QUIC connections; rogue server (no trusted key, "
+        "no PSK) x all permutations of sub-multisets of the flight x ServerHello pre_shared_key in {absent, 0, 1} x own / "
+        "victim certificate, for clients offering and not offering a PSK; chain; resumption/0-RTT accepted, ticket "
         "unknown, suite changed; random combinations under loss/reordering; byte flips (quick: PRNG sample + first/last "
         "byte of every message; thorough: every position x masks 01/80/ff, capped at 5000 per variant) of every "
         "handshake message in both directions for RSA+ALPN, EC, certificate-request and PSK handshakes")
